@@ -11,7 +11,7 @@ PROPS = {
     'C03': {
         'units': [('contracts/S_parse.vc', None, 'S_parse'), ('contracts/S_tok.vc', None, 'S_tok'), ('contracts/W_writer.vc', None, 'W_writer'), ('contracts/R_tokrt.vc', None, 'R_tokrt')],
         'replay': 'c03',
-        'replay_scope': '30000 pseudo-random fully segmented sentences (1-5 characters over {a, space, /, backslash, multi-byte}, 0-3 tag slots with absent / delimiter-bearing / multi-byte tags): write -> from_tokenized -> compare text, labels, per-token tags up to trailing absent; plus write-after-parse idempotence on every string of length <= 6 over the format alphabet that the parser accepts; since round 11 the alphabet also holds CR, LF and TAB and two tags end in CR / are LF',
+        'replay_scope': '30000 pseudo-random fully segmented sentences (1-5 characters over {a, space, /, backslash, multi-byte}, 0-3 tag slots with absent / delimiter-bearing / multi-byte tags): write -> from_tokenized -> compare text, labels, per-token tags up to trailing absent; plus write-after-parse idempotence on every string of length <= 6 over the format alphabet that the parser accepts; since round 11 the alphabet also holds CR, LF and TAB and two tags end in CR / are LF; since round 14 tags are stored borrowed and owned in turn',
         'not_covered': [
             'tags are compared per TOKEN (the row of the token\'s last character, which is what Token::tags returns and what the format can carry); tag slots on characters that do not end a token are not written and come back absent',
             'the proviso of the statement is a precondition: tags present in the table are non-empty and NUL-free, the sentence has no unknown boundary (an empty tag is written as an empty field and read back as absent)',
@@ -22,7 +22,7 @@ PROPS = {
     'C04': {
         'units': [('contracts/S_parse.vc', None, 'S_parse'), ('contracts/W_pawriter.vc', None, 'W_pawriter'), ('contracts/R_part.vc', None, 'R_part')],
         'replay': 'c04',
-        'replay_scope': '30000 pseudo-random sentences (1-5 characters over {a, b, space, /, backslash, -, |, multi-byte}, labels from {boundary, not a boundary, unknown}, 0-3 tag slots on EVERY character with absent / delimiter-bearing / multi-byte tags): write_partial_annotation_text -> from_partial_annotation -> compare text, labels, per-character tags up to trailing absent; since round 11 the alphabet also holds CR and LF and one tag ends in CR',
+        'replay_scope': '30000 pseudo-random sentences (1-5 characters over {a, b, space, /, backslash, -, |, multi-byte}, labels from {boundary, not a boundary, unknown}, 0-3 tag slots on EVERY character with absent / delimiter-bearing / multi-byte tags): write_partial_annotation_text -> from_partial_annotation -> compare text, labels, per-character tags up to trailing absent; since round 11 the alphabet also holds CR and LF and one tag ends in CR; since round 14 tags are stored borrowed and owned in turn',
         'not_covered': [
             'the proviso is a precondition: tags present in the table are non-empty (an empty tag is written as an empty field and read back as absent); NUL inside a tag is not excluded by the proof (the parser accepts it)',
             'update_partial_annotation carries the same contract as from_partial_annotation (proved in S_parse); the composition is stated with from_partial_annotation',
@@ -54,7 +54,7 @@ PROPS = {
         'units': [('contracts/M_model.vc', None, 'M_model')],
         'functions': ['replace_dictionary', 'dictionary', 'tag_models', 'new', 'get_word', 'get_weights', 'get_comment', 'chars_count', 'lemma_chars_le_bytes'],
         'replay': ['c19', 'c01'],
-        'replay_scope': '10 words x 8 weight counts for the record rule; 4 replacement dictionaries on resources/model.bin with byte-for-byte restore check; score-difference clause on 150 seeded models against the brute-force linear model; the manipulate_model binary built from /repo: --dump-dict then --replace-dict with the unmodified dump on 16 dictionaries (shipped, empty, awkward words / comments with commas, quotes, leading / trailing / inner spaces, tab, newline, ZWJ emoji, a leading hash sign) reproduces the model byte for byte, and a record with a wrong weight count is rejected; tool sweep since round 11: the dump of each dictionary is also put into ANOTHER model (two-word dictionary) and must give the model holding the dumped dictionary (an empty dump empties it); since round 12 records with weights that need all 32 bits and records with only zero weights, in the tool sweep and in the replace check; since round 13 the dump column names (word, weights) as the first dictionary words',
+        'replay_scope': '10 words x 8 weight counts for the record rule; 4 replacement dictionaries on resources/model.bin with byte-for-byte restore check; score-difference clause on 150 seeded models against the brute-force linear model; the manipulate_model binary built from /repo: --dump-dict then --replace-dict with the unmodified dump on 16 dictionaries (shipped, empty, awkward words / comments with commas, quotes, leading / trailing / inner spaces, tab, newline, ZWJ emoji, a leading hash sign) reproduces the model byte for byte, and a record with a wrong weight count is rejected; tool sweep since round 11: the dump of each dictionary is also put into ANOTHER model (two-word dictionary) and must give the model holding the dumped dictionary (an empty dump empties it); since round 12 records with weights that need all 32 bits and records with only zero weights, in the tool sweep and in the replace check; since round 13 the dump column names (word, weights) as the first dictionary words; since round 14 formula-like cells (=, +, -, @ and quote-prefixed ones)',
         'not_covered': [
             'the score-difference clause is the composition of this frame with the C01 chain (dictionary entries enter the score only through contrib terms); the composition itself is not a discharged obligation',
         ],
@@ -62,7 +62,7 @@ PROPS = {
     'C15': {
         'units': [('contracts/F_filters.vc', None, 'F_filters'), ('contracts/F_tagger.vc', None, 'F_tagger'), ('contracts/S_tok.vc', None, 'S_tok')],
         'replay': 'c15',
-        'replay_scope': 'all boundary vectors {W,N,U}^(min(n-1,7)) over 18 texts x 6 character types for the character-type filter; line-break filter against its rule (incl. CR/LF at the very end); grapheme filter: only-clears, idempotence, frame, 8 known-answer cluster boundaries (ZWJ, skin tone, spacing mark, prepend, combining mark, regional indicators); pattern tagger against a reference written from the statement on 12 sentences (tokenized and partial-annotation lines, so with unknown boundaries; present / absent / trailing-absent tags) x 4 rule tables (empty, full, rows shorter / longer than the tag width, rows with absent entries, surfaces that are not tokens) with frame and idempotence; built with debug assertions so out-of-range unchecked accesses abort',
+        'replay_scope': 'all boundary vectors {W,N,U}^(min(n-1,7)) over 18 texts x 6 character types for the character-type filter; line-break filter against its rule (incl. CR/LF at the very end); grapheme filter: only-clears, idempotence, frame, 8 known-answer cluster boundaries (ZWJ, skin tone, spacing mark, prepend, combining mark, regional indicators); pattern tagger against a reference written from the statement on 12 sentences (tokenized and partial-annotation lines, so with unknown boundaries; present / absent / trailing-absent tags) x 4 rule tables (empty, full, rows shorter / longer than the tag width, rows with absent entries, surfaces that are not tokens) with frame and idempotence; built with debug assertions so out-of-range unchecked accesses abort; since round 14 five more texts with VT, FF, NEL, LS, PS and characters whose low byte is CR / LF',
         'not_covered': [
             'ConcatGraphemeClustersFilter::filter is proved against an ASSUMED segmentation: `first_cluster` (character count of the first extended grapheme cluster) is uninterpreted with one axiom (1 <= count <= length on non-empty text) and the `.graphemes(true).next().map(..)` chain is an external_body twin returning (byte length, character count) of that cluster; that unicode-segmentation really implements UAX #29 is checked by the bounded sweep only (8 known-answer cluster boundaries)',
             'PatternMatchTagger::filter is proved against an ASSUMED contract of hashbrown HashMap::get (Some(row) iff the surface is a key; the table is an uninterpreted mathematical map) and of the token iterator / Token accessors (proved in unit S_tok under the same contract files)',
@@ -168,7 +168,7 @@ PROPS = {
         'level': 'exploration',
         'units': [],
         'replay': 'c20',
-        'replay_scope': 'BOUNDED: target_cli/release/predict built from /repo, run on a 19-line stdin (empty line, NUL, spaces, slashes, backslash; also fed with CR LF line ends and no final newline; half-width characters incl. those whose full-width form has the same byte length, full-width digits, combining marks, kanji runs of known words) with resources/model.bin under all 16 combinations of {--no-norm, --predict-tags, --scores, --tag-scores} x 4 --wsconst settings (none, D, G, K R): stdout compared byte for byte with the library pipeline of the statement (one tokenised line per input line whose surfaces are the original text, empty line for empty/rejected input, score block and tag-score block after their line in one layout); evaluate on a 9-line reference (mis-segmented last word followed by correct sentences and vice versa) under {char, word} x {--predict-tags} x {--no-norm} x 4 --wsconst settings: counts, precision, recall, F1 compared with an independent implementation of the character confusion counts and the Nagata word matching; since round 12 evaluate also runs on the shipped model stripped of its tag models and on a reference with one line of 190,000 characters',
+        'replay_scope': 'BOUNDED: target_cli/release/predict built from /repo, run on a 21-line stdin (empty line, NUL, spaces, slashes, backslash; also fed with CR LF line ends and no final newline; half-width characters incl. those whose full-width form has the same byte length, full-width digits, combining marks, kanji runs of known words) with resources/model.bin under all 16 combinations of {--no-norm, --predict-tags, --scores, --tag-scores} x 5 --wsconst settings (none, D, G, K R, D K): stdout compared byte for byte with the library pipeline of the statement (one tokenised line per input line whose surfaces are the original text, empty line for empty/rejected input, score block and tag-score block after their line in one layout); evaluate on a 9-line reference (mis-segmented last word followed by correct sentences and vice versa) under {char, word} x {--predict-tags} x {--no-norm} x 4 --wsconst settings: counts, precision, recall, F1 compared with an independent implementation of the character confusion counts and the Nagata word matching; since round 12 evaluate also runs on the shipped model stripped of its tag models and on a reference with one line of 190,000 characters',
         'not_covered': [
             'main() of predict/evaluate is not under contract (stdin/stdout, clap, zstd): the claim is the bounded process-level comparison, labelled bounded',
             'one model (resources/model.bin), fixed inputs; train, convert_kytea_model and manipulate_model are not exercised',
